@@ -86,7 +86,13 @@ def gen_case(r):
             asn = remote_asn if r.chance(5, 6) else r.pick([65003, 23456, 4200000002, 1])
             hold = r.pick(HOLDS) if (ev == "open-parsed" or r.chance(7, 8)) else r.pick(BAD_HOLDS)
             rid = (remote_rid if r.chance(3, 4) else r.pick(RIDS)) if (ev == "open-parsed" or r.chance(7, 8)) else r.pick(BAD_RIDS)
-            t = "(%s %d %d %d)" % (ev, asn, hold, rid)
+            if ev == "open" and r.chance(1, 4):
+                # wire OPEN whose 2-octet My-AS field and 4-octet-AS capability are chosen independently
+                as2 = r.pick([asn if asn < 65536 else 23456, 23456, 65003, remote_asn if remote_asn < 65536 else 1])
+                cap4 = r.pick(["none", str(asn), str(remote_asn), "65003", "4200000002"])
+                t = "(open-wire %d %s %d %d)" % (as2, cap4, hold, rid)
+            else:
+                t = "(%s %d %d %d)" % (ev, asn, hold, rid)
             prog[role] = 2 if prog[role] == 1 else 0
         elif ev == "keepalive":
             t = "keepalive"; prog[role] = 3 if prog[role] >= 2 else 0
